@@ -299,7 +299,34 @@ def executor_outcome(key, args):
     return {"kind": "error", "why": f"{r.outcome}: {r.error}"}
 
 
-def native_batch(tasks, repo=None, timeout=600):
+_SERVER = None
+
+
+def _server():
+    global _SERVER
+    if _SERVER is None or _SERVER.poll() is not None:
+        env = dict(os.environ)
+        env["GOODWE_REPO"] = REPO
+        env["PYTHONPATH"] = VERIF
+        env["PYTHONDONTWRITEBYTECODE"] = "1"
+        _SERVER = subprocess.Popen([VENV_PY, "-m", "pyvc.native", "--serve"], stdin=subprocess.PIPE,
+                                   stdout=subprocess.PIPE, stderr=subprocess.DEVNULL, text=True, env=env, cwd=VERIF)
+    return _SERVER
+
+
+def native_batch(tasks, repo=None, timeout=600, oneshot=False):
+    """run tasks on the real code under /venv/bin/python.  A persistent server process is used for the many small
+    replay requests of one check run; bulk work (exhaustive sweeps, differential batches) runs one-shot."""
+    if not oneshot and repo is None and len(tasks) <= 8:
+        try:
+            p = _server()
+            p.stdin.write(json.dumps(tasks) + "\n")
+            p.stdin.flush()
+            line = p.stdout.readline()
+            if line.strip():
+                return json.loads(line)
+        except Exception:      # noqa
+            pass
     env = dict(os.environ)
     env["GOODWE_REPO"] = repo or REPO
     env["PYTHONPATH"] = VERIF
